@@ -1,4 +1,21 @@
 import RedisGoModel.Props.C19Conc
+/-! # C19, concurrent: linearizability of the Pub/Sub table — the simulation invariants
+
+The model `Conc/PubSubConc.lean` carries a ghost linearization `lin` (see its header for the linearization points: Subscribe at
+the join, UnSubscribe at the delete, a pruned connection as an `unsubscribe` at the prune, Send at the END of its delivery loop —
+or, when its object was dropped between its lookup and its Lock(obj), at the dropping UnSubscribe's step: helping).  This file
+proves, as invariants of every reachable state of every real program (`allinv_reach`):
+
+* `RInv` — the subscription table of the sequential specification `PubSub.run (absLin lin)` IS the concrete table;
+* `PInv` — where the program counter stands relative to the linearization point; a Send that looked object `o` up is linearized
+  iff `o` is no longer the table entry of its channel (`fresh` / `stale`);
+* `ZInv`, `WInv` — every linearized operation has its entry in `lin` at a position ≥ the length of `lin` at its invocation, and
+  for a Send the ghost `exp` is the specification's count just before that position; every completed operation's record is
+  `RecOk`: position inside [invLen, retLen), reply = the specification's count there (`spec_count_eq`: duplicate-free lists with
+  the same members have the same length);
+* `TInv` — the clock samples: returned-before-invoked implies retLen ≤ invLen (real-time order).
+
+The theorems built from them are in `Props/C19ConcLog.lean`. -/
 set_option linter.unusedSimpArgs false
 set_option linter.unusedVariables false
 namespace PSC
